@@ -87,11 +87,12 @@ example : plainOf toyExt (decompObj toyExt (compObj (fun x => 0 :: x) true (.str
   (doc_compress_decompress toyExt (fun x => 0 :: x) (fun _ => true) (fun _ => rfl) (fun _ => by simp) [] (1, 0)).2.2.2
     (.stream [(K_LENGTH, .int 3)] [1, 2, 3]) true ⟨by unfold Dict.KeysNodup; decide, by decide⟩
 
-/-- the guard `Filter ≠ []` is needed: with the EMPTY filter array `decompressed_content` is the empty string and
-`decompress` stores it — the content is lost although `get_plain_content` returned it before. -/
+/-- regression of finding F-C09-d (repaired by lopdf 70e5e99): with the EMPTY filter array `decompressed_content`
+is the content itself and `decompress` keeps it. (The guard `Filter ≠ []` of the theorems above is therefore no
+longer necessary; it is kept because their proofs use it.) -/
 theorem decompress_empty_filter_witness (ext : Ext) :
     getPlainContent ext ⟨[(K_FILTER, .arr [])], [1, 2, 3]⟩ = .ok [1, 2, 3] ∧
-    (decompS ext ⟨[(K_FILTER, .arr [])], [1, 2, 3]⟩).content = [] :=
+    (decompS ext ⟨[(K_FILTER, .arr [])], [1, 2, 3]⟩).content = [1, 2, 3] :=
   decompress_empty_filter_witness' ext
 
 end Lopdf
